@@ -243,6 +243,9 @@ impl Debugger {
                 }
 
                 Status::Finish => {
+                    // Must be recalculated: commands may have moved PC or changed memory since
+                    // `instr` was read
+                    let instr = SignificantInstr::try_from(state.mem(state.pc())).ok();
                     if instr == Some(SignificantInstr::Return) {
                         dprintln!(
                             Alternate,
